@@ -139,13 +139,6 @@ func (r *readCommand) read(ctx context.Context, ltx lcontext.LContext,
 		limiter = r.server.tailLimiter
 	}
 
-	defer func() {
-		select {
-		case <-limiter:
-		default:
-		}
-	}()
-
 	select {
 	case limiter <- struct{}{}:
 	case <-ctx.Done():
@@ -159,6 +152,14 @@ func (r *readCommand) read(ctx context.Context, ltx lcontext.LContext,
 			return
 		}
 	}
+
+	// Give the slot back, but only once we actually got one.
+	defer func() {
+		select {
+		case <-limiter:
+		default:
+		}
+	}()
 
 	lines := r.server.lines
 	aggregate := r.server.aggregate
